@@ -115,7 +115,7 @@ Proof. exact cross_js_bytes. Qed.
 Print Assumptions C18_table_cross_roundtrip_bytes.
 
 (* ------------------------------------------------------------------ the output header, derived twice *)
-From RBQL Require Import Expr Parser HeaderJs HeaderJs_Proofs.
+From RBQL Require Import Expr Parser HeaderJs HeaderJs_Proofs ParserVars HeaderJsUnquote_Proofs.
 From Coq Require String.
 Import String.StringSyntax.
 
@@ -166,6 +166,14 @@ Print Assumptions C18_header_built_agree.
 Theorem C18_header_unquote : forall (q : ch) (name : str), q = APOS \/ q = QT -> unquote_string (quote q name) = Some name.
 Proof. exact unquote_quote. Qed.
 Print Assumptions C18_header_unquote.
+
+(* ... and, since fix 80cd609 (finding D24), from the spelling the engines themselves use as the key of a["..."] / a['...']
+   (escape_column_name = js_string_escape_column_name = python_string_escape_column_name: backslash, LF, CR, TAB and the quote
+   character escaped): the header name of such an item is the source column's name for EVERY name - no hypothesis on its characters *)
+Theorem C18_header_unquote_escaped : forall (q : ch) (name : str), q = QT \/ q = APOS ->
+  unquote_string (q :: ParserVars.escape_column_name q name ++ [q]) = Some name.
+Proof. exact unquote_escaped. Qed.
+Print Assumptions C18_header_unquote_escaped.
 
 (* non-vacuity: one select list with every kind of item *)
 Definition c18_items : list ritem :=
